@@ -70,6 +70,7 @@ TRANSLATORS = {
                                                    "passkey-authenticator/src/authenticator/make_credential.rs",
                                                    "passkey-authenticator/src/authenticator/get_assertion.rs",
                                                    "passkey-authenticator/src/u2f.rs"], "theories/Auth/gen/Skeleton.v"),
+    "client_skeleton": ("client_skeleton.py", ["passkey-client/src/lib.rs"], "theories/Auth/gen/ClientSkeleton.v"),
 }
 
 
